@@ -461,6 +461,9 @@ namespace GeographicLib {
     k /= kold;
     _scale *= k;
     _k0 *= k;
+    // _nrho0 and _drhomax are proportional to _k0 and _scale (see Init)
+    _nrho0 *= k;
+    _drhomax *= k;
   }
 
 } // namespace GeographicLib
